@@ -162,7 +162,8 @@ class Lemma:
 
 
 class LoopSpec:
-    def __init__(self, inv=(), variant=None, match=None, index=None, modifies=(), seq_fun=None, seq_name=None):
+    def __init__(self, inv=(), variant=None, match=None, index=None, modifies=(), seq_fun=None, seq_name=None, iter_name=None):
+        self.iter_name = iter_name      # name under which the evaluated iterable (a list value) is visible to the invariants
         self.seq_fun, self.seq_name = seq_fun, seq_name
         self.inv = [as_clause(c) for c in inv]
         self.variant = as_clause(variant) if variant else None
